@@ -73,7 +73,7 @@ type fakeNotifier struct {
 }
 
 func (n *fakeNotifier) Notify(c chan<- os.Signal, sig ...os.Signal) { n.c, n.sigs = c, sig }
-func (n *fakeNotifier) Stop(chan<- os.Signal)                     {}
+func (n *fakeNotifier) Stop(chan<- os.Signal)                       {}
 
 type svc struct {
 	idx     int
